@@ -530,6 +530,9 @@ def judge_B(c, r):
     # --- used by copy: a hostile handler (reuses one cell, overwrites every object it ever returned, scribbles on the groups it received)
     if not r["same"]:
         out.append(("alias", "results depend on what the handler does to its returned objects / received groups afterwards: " + ", ".join(diff_keys(clean, host))))
+    if not r.get("order_same", True):
+        out.append(("hard", "registering the two (non-overlapping) syntaxes in the other order — stream parser first, regex second — changes the outcome: "
+                    + ", ".join(diff_keys(clean, r["swapped"]))))
     if [(x["which"], x["groups"]) for x in calls] != [(x["which"], x["groups"]) for x in (r["calls2"] or [])]:
         out.append(("alias", "handler log differs between the clean and the hostile handler"))
     # --- groups / payload exact
